@@ -889,3 +889,56 @@ func nilGuardedErr(fn *ssa.Function, errCall *ssa.Call, at ssa.Instruction) bool
 	}
 	return false
 }
+
+// PARSE7: the lexer reads the source text itself: the argument of
+// antlr.NewInputStream in compile.Tree is the function's parameter, not a
+// transformed copy (token boundaries — line ends terminating `//` comments,
+// characters inside string literals — depend on every character).
+func rulePARSE7(p *Program) *RuleResult {
+	r := newResult("PARSE7")
+	fn, err := p.Func("fhirpath/internal/compile", "Tree")
+	if err != nil {
+		return r.anchorFail(err)
+	}
+	n := 0
+	for _, b := range fn.Blocks {
+		for _, ins := range b.Instrs {
+			c, ok := ins.(*ssa.Call)
+			if !ok || c.Common().StaticCallee() == nil {
+				continue
+			}
+			name := c.Common().StaticCallee().RelString(nil)
+			if !strings.HasSuffix(name, "antlr/v4.NewInputStream") && !strings.HasSuffix(name, "antlr/v4.NewIoStream") && !strings.HasSuffix(name, "antlr/v4.NewFileStream") {
+				continue
+			}
+			n++
+			arg := c.Common().Args[0]
+			okSrc := false
+			if pr, ok := arg.(*ssa.Parameter); ok && len(fn.Params) > 0 && pr == fn.Params[0] {
+				okSrc = true
+			}
+			if ld, ok := arg.(*ssa.UnOp); ok {
+				// spilled parameter: a local cell written once with the parameter
+				if al, ok := ld.X.(*ssa.Alloc); ok && storesTo(al) == 1 {
+					for _, ref := range *al.Referrers() {
+						if st, ok := ref.(*ssa.Store); ok && st.Addr == ssa.Value(al) {
+							if pr, ok := st.Val.(*ssa.Parameter); ok && pr == fn.Params[0] {
+								okSrc = true
+							}
+						}
+					}
+				}
+			}
+			if okSrc {
+				r.ok("compile.Tree|input stream", "the ANTLR input stream is built from the source parameter itself", p.instrPos(ins), "argument provenance", true)
+			} else {
+				r.bad("compile.Tree|input stream", "the ANTLR input stream is built from "+valDescr(arg)+", not from the source text as given", p.instrPos(ins),
+					"a rewritten source changes token boundaries (line comments end at the line break, string literals keep their characters): two renderings of one tree no longer compile alike")
+			}
+		}
+	}
+	if n != 1 {
+		r.undecided("compile.Tree|input stream", fmt.Sprintf("%d ANTLR input streams are created in compile.Tree (1 expected)", n), p.pos(fn.Pos()), "shape changed")
+	}
+	return r
+}
